@@ -75,6 +75,9 @@ pub struct World {
     /// gzip files consist of this many members (0 / 1 = a single member, as gzip writes them)
     #[serde(default)]
     pub gz_members: u8,
+    /// directory of the input files below /sim/ ("" or e.g. "a/"): two networks may use the same file names
+    #[serde(default)]
+    pub subdir: String,
     pub explicit_counts: bool,
     pub traversal: Traversal,
     pub algorithm: Value,
@@ -293,6 +296,7 @@ impl World {
             vertex_cols,
             csv_blank_lines: 0,
             gz_members: 0,
+            subdir: String::new(),
             explicit_counts: r.chance(0.3),
             traversal: Traversal::Distance { unit: "kilometers".into() },
             algorithm: json!({"type": "a*"}),
@@ -317,13 +321,13 @@ impl World {
     }
 
     pub fn edges_path(&self) -> String {
-        if self.gz_edges && !self.gz_misnamed { "/sim/edges.csv.gz".into() } else { "/sim/edges.csv".into() }
+        if self.gz_edges && !self.gz_misnamed { format!("/sim/{}edges.csv.gz", self.subdir) } else { format!("/sim/{}edges.csv", self.subdir) }
     }
     pub fn vertices_path(&self) -> String {
-        if self.gz_vertices && !self.gz_misnamed { "/sim/vertices.csv.gz".into() } else { "/sim/vertices.csv".into() }
+        if self.gz_vertices && !self.gz_misnamed { format!("/sim/{}vertices.csv.gz", self.subdir) } else { format!("/sim/{}vertices.csv", self.subdir) }
     }
     fn table_path(&self, stem: &str) -> String {
-        if self.gz_tables && !self.gz_misnamed { format!("/sim/{}.txt.gz", stem) } else { format!("/sim/{}.txt", stem) }
+        if self.gz_tables && !self.gz_misnamed { format!("/sim/{}{}.txt.gz", self.subdir, stem) } else { format!("/sim/{}{}.txt", self.subdir, stem) }
     }
     pub fn table_path_pub(&self, stem: &str) -> String {
         self.table_path(stem)
@@ -341,7 +345,7 @@ impl World {
         }
     }
     pub fn headings_path(&self) -> String {
-        if self.gz_tables && !self.gz_misnamed { "/sim/headings.csv.gz".into() } else { "/sim/headings.csv".into() }
+        if self.gz_tables && !self.gz_misnamed { format!("/sim/{}headings.csv.gz", self.subdir) } else { format!("/sim/{}headings.csv", self.subdir) }
     }
     pub fn headings_csv(&self) -> String {
         let mut s = String::from("arrival_heading,departure_heading\n");
